@@ -2732,6 +2732,20 @@ impl DhtNetworkManager {
     }
 }
 
+// Verification hooks (feature `verif-hooks` only; add-only)
+#[cfg(feature = "verif-hooks")]
+impl DhtNetworkManager {
+    /// Number of entries in the pending DHT-operation table.
+    pub fn verif_active_operations_len(&self) -> usize {
+        self.active_operations.lock().map(|g| g.len()).unwrap_or(0)
+    }
+
+    /// Whether the shutdown token has been cancelled.
+    pub fn verif_is_shut_down(&self) -> bool {
+        self.shutdown.is_cancelled()
+    }
+}
+
 impl Default for DhtNetworkConfig {
     fn default() -> Self {
         Self {
